@@ -255,10 +255,11 @@ _upd('C07',
      'scope-tree / remap-table / fragment-stream correspondence; binding-structure judge with an independent ES5 scope resolver',
      'generated_not_reserved, generator_fresh, remap_tables_capture_free, top_level_unchanged, remap_injective_visible, '
      'only_identifiers_change (final stream equals the un-obfuscated one up to identifier pairs, under keysPlain), '
-     'resolution_commutes_with_renaming, binding_preserved_partial (alignedOf = some true -> every occurrence resolves to the same '
-     'declaring scope, binder map one-to-one, free/top-level names kept). One lemma is open: not excluded -> aligned (the exclusion '
-     'predicate covers exactly the recorded deviation classes KF-07a/b/c, each with a kernel witness that binding is NOT preserved); '
-     'it is evaluated by the model on every program of the run as an obligation. Judge: Spec.Scope bindings of original vs output '
+     'resolution_commutes_with_renaming, binding_preserved_of_walk_facts_partial (for every program - catch clauses, named function '
+     'expressions, labels included - whose decidable walk facts hold, every occurrence resolves to the same declaring scope, the '
+     'binder map is one-to-one, free/top-level names are kept). One lemma is open: not excluded -> walk facts (from the '
+     'definition-driven walk; the exclusion predicate covers exactly the recorded deviation classes KF-07a/b/c, each with a kernel '
+     'witness that binding is NOT preserved); it is evaluated by the model on every (program, flags) pair of the run as an obligation. Judge: Spec.Scope bindings of original vs output '
      'occurrence by occurrence on generated scope-heavy programs for all flag combinations and rule compositions.',
      None)
 _upd('C11',
